@@ -70,6 +70,7 @@ func c10(c *Ctx) {
 		cfg.LibDefaults.TicketLifetime = time.Duration(2+combo%7) * time.Hour
 		k.RequirePreauth = combo&32 != 0
 		k.ExtraHints = combo&16 != 0
+		k.OmitStartTime = combo%3 == 0 // starttime is OPTIONAL in tickets and replies
 		var cl *client.Client
 		kind := "password"
 		if combo%2 == 1 {
@@ -133,6 +134,7 @@ func c10(c *Ctx) {
 	}
 	k.RequirePreauth = false
 	k.ExtraHints = false
+	k.OmitStartTime = false
 
 	// ---------- (b) cache / expiry / renewal histories in real time with short lifetimes ----------
 	type hist struct {
@@ -324,6 +326,7 @@ func c10(c *Ctx) {
 			kk.ServiceLifetime = 2 * time.Second
 			kk.RequirePreauth = vi%2 == 1 // re-login then goes through a refused pre-emptive timestamp
 			kk.ExtraHints = vi%2 == 1     // ... and the e-data carries lower-precedence hints after ETYPE-INFO2
+			kk.OmitStartTime = vi == 2 || vi == 3
 			if renewable {
 				kk.RenewLifetime = 30 * time.Second
 			}
